@@ -13,12 +13,14 @@
     [plan_inert_conv]: the converse -- these are EXACTLY the token lists that
     plan that way: any untagged token with a [>], any untagged [|] [<] [<<<],
     an untagged [&] in last position makes the plan differ. *)
+From Cicada Require Import Proofs.SplitLtProofs.
 From Cicada Require Import Base.Chars Base.Tag Model.Redirect Proofs.RedirectProofs.
 From Coq Require Import Lia.
 Local Open Scope N_scope.
 
 Definition inert_text (w : str) : bool :=
-  negb (has_char c_gt w) && negb (str_eqb w [c_pipe]) && negb (str_eqb w s_lt) && negb (str_eqb w s_lt3).
+  negb (has_char c_gt w) && negb (str_eqb w [c_pipe]) && negb (str_eqb w s_lt) && negb (str_eqb w s_lt3) &&
+  negb (att_lt (TNone, w)).   (* /repo 543507e: an untagged word <file (one <, then more) is split into < and a file name *)
 
 Definition inert_tok (t : token) : bool :=
   negb (tag_eqb (fst t) TNone) || inert_text (snd t).
@@ -39,6 +41,15 @@ Proof.
   - left. now apply negb_true_iff in H.
   - right. repeat (apply andb_true_iff in H as [H ?]).
     repeat match goal with H : negb _ = true |- _ => apply negb_true_iff in H end. auto.
+Qed.
+
+Lemma att_lt_inert l : forallb inert_tok l = true -> existsb att_lt l = false.
+Proof.
+  induction l as [|[tg w] l IH]; [reflexivity|]. cbn [forallb existsb]. intros H.
+  apply andb_true_iff in H as [Ht Hq]. rewrite (IH Hq), orb_false_r.
+  unfold inert_tok, inert_text in Ht. cbn [fst snd] in Ht. apply orb_true_iff in Ht as [Ht|Ht].
+  - apply att_lt_tagged. now apply negb_true_iff in Ht.
+  - apply andb_true_iff in Ht as [_ Ht]. apply negb_true_iff in Ht. destruct tg; try reflexivity. exact Ht.
 Qed.
 
 Lemma split_pipes_inert l : forallb inert_tok l = true -> forall cur acc,
@@ -100,7 +111,9 @@ Proof.
   { cbn [split_pipes]. cbn [tag_eqb andb].
     match goal with H : str_eqb cmd [c_pipe] = false |- _ => rewrite H end.
     rewrite split_pipes_inert; [reflexivity|exact Hq|reflexivity]. }
-  rewrite Hsp. cbn [map_cmds]. unfold from_tokens.
+  rewrite Hsp. cbn [map_cmds]. rewrite from_tokens_nosplit.
+  2:{ cbn [existsb]. rewrite att_lt_sw by assumption. now apply att_lt_inert. }
+  unfold from_tokens_core.
   assert (Hhf : has_from ((TNone, cmd) :: l) = false).
   { cbn [has_from existsb fst snd tag_eqb andb].
     repeat match goal with H : str_eqb cmd _ = false |- _ => rewrite H end.
@@ -284,17 +297,33 @@ Proof.
     + injection E as <- <- <-. destruct H as [H|H]; [discriminate|exact H].
 Qed.
 
-Lemma from_tokens_exact l : from_tokens l = inl (mkc l [] None) ->
+Lemma from_tokens_core_none l0 tk rd : from_tokens_core l0 = inl (mkc tk rd None) -> has_from l0 = false.
+Proof.
+  unfold from_tokens_core. destruct (from_loop (S (length l0)) (l0, [], [])) as [[[l' ty] va]|] eqn:E; [|discriminate].
+  destruct (has_from l0) eqn:Hf; [|reflexivity].
+  pose proof (from_loop_ty _ _ _ _ _ _ _ E (or_introl Hf)) as Hty.
+  destruct (tokens_to_redirections l') as [[tk' rd']|]; [|discriminate].
+  destruct ty; [congruence|]. discriminate.
+Qed.
+
+Lemma from_tokens_core_exact l : from_tokens_core l = inl (mkc l [] None) ->
   has_from l = false /\ forallb gt_ok l = true.
 Proof.
-  unfold from_tokens. destruct (from_loop (S (length l)) (l, [], [])) as [[[l' ty] va]|] eqn:E; [|discriminate].
-  destruct (has_from l) eqn:Hf.
-  - pose proof (from_loop_ty _ _ _ _ _ _ _ E (or_introl Hf)) as Hty.
-    destruct (tokens_to_redirections l') as [[tk rd]|]; [|discriminate].
-    destruct ty; [congruence|]. discriminate.
-  - cbn [from_loop] in E. rewrite Hf in E. injection E as <- <- <-.
-    destruct (tokens_to_redirections l) as [[tk rd]|] eqn:R; [|discriminate].
-    intros H. injection H as -> ->. split; [reflexivity|]. now apply tokens_to_redirections_exact.
+  intro H. pose proof (from_tokens_core_none _ _ _ H) as Hf. split; [exact Hf|].
+  unfold from_tokens_core in H. cbn [from_loop] in H. rewrite Hf in H.
+  destruct (tokens_to_redirections l) as [[tk rd]|] eqn:R; [|discriminate].
+  injection H as -> ->. now apply tokens_to_redirections_exact.
+Qed.
+
+(** with the split of attached [<file] words in front (/repo 543507e): a list that comes out unchanged, without
+    input redirection, contained no such word *)
+Lemma from_tokens_exact l : from_tokens l = inl (mkc l [] None) ->
+  has_from l = false /\ forallb gt_ok l = true /\ existsb att_lt l = false.
+Proof.
+  intro H. destruct (existsb att_lt l) eqn:A.
+  - exfalso. unfold from_tokens in H. apply from_tokens_core_none in H.
+    rewrite (split_lts_has_from l A) in H. discriminate.
+  - rewrite (from_tokens_nosplit l A) in H. destruct (from_tokens_core_exact l H). auto.
 Qed.
 
 (** pipes *)
@@ -375,7 +404,8 @@ Proof.
   destruct (from_tokens ((TNone, cmd) :: l)) as [c|] eqn:F; [|discriminate].
   destruct (is_empty (c_tokens c)); [discriminate|].
   injection M as <-. injection Hcs as ->.
-  apply from_tokens_exact in F as [Hhf Hgt].
+  apply from_tokens_exact in F as (Hhf & Hgt & Hatt).
+  cbn [existsb] in Hatt. apply orb_false_iff in Hatt as [_ Hatt].
   (* assemble *)
   cbn [filter] in Hnp. unfold pipe_tok at 1 in Hnp. cbn [fst snd tag_eqb andb] in Hnp.
   assert (Hcp : str_eqb cmd [c_pipe] = false).
@@ -384,15 +414,15 @@ Proof.
   rewrite Hcp in Hnp.
   cbn [has_from existsb] in Hhf. apply orb_false_iff in Hhf as [_ Hhf].
   cbn [forallb] in Hgt. apply andb_true_iff in Hgt as [_ Hgt].
-  clear - Hnp Hhf Hgt. induction l as [|[tg w] l IH]; [reflexivity|].
+  clear - Hnp Hhf Hgt Hatt. induction l as [|[tg w] l IH]; [reflexivity|].
   cbn [forallb existsb filter] in *. apply andb_true_iff in Hgt as [G1 G2].
-  apply orb_false_iff in Hhf as [F1 F2].
+  apply orb_false_iff in Hhf as [F1 F2]. apply orb_false_iff in Hatt as [A1 A2].
   unfold pipe_tok at 1 in Hnp. cbn [fst snd] in *.
   destruct (tag_eqb tg TNone && str_eqb w [c_pipe]) eqn:P; [discriminate|].
-  rewrite (IH F2 G2 Hnp), andb_true_r.
+  rewrite (IH F2 G2 A2 Hnp), andb_true_r.
   unfold inert_tok, inert_text, gt_ok in *. cbn [fst snd] in *.
-  destruct (tag_eqb tg TNone); cbn [negb orb andb] in *; [|reflexivity].
-  rewrite G1, P. cbn [negb andb]. apply orb_false_iff in F1 as [-> ->]. reflexivity.
+  destruct tg; cbn [tag_eqb negb orb andb] in *; try reflexivity.
+  rewrite G1, P, A1. cbn [negb andb]. apply orb_false_iff in F1 as [-> ->]. reflexivity.
 Qed.
 
 (** both directions together *)
@@ -507,7 +537,16 @@ Proof.
   cbn [app is_empty map_cmds].
   (* the input redirection *)
   assert (Hfrom : from_tokens ((TNone, cmd) :: a ++ (TNone, op) :: tgt :: b) = inl (mkc ((TNone, cmd) :: a ++ b) [] (Some (op, snd tgt)))).
-  { unfold from_tokens.
+  { rewrite from_tokens_nosplit.
+    2:{ cbn [existsb]. rewrite existsb_app. cbn [existsb].
+        assert (Hcs : starts_with_c c_lt cmd = false).
+        { pose proof Hc as Hc'. unfold cmd_ok in Hc'. repeat (apply andb_true_iff in Hc' as [Hc' ?]).
+          repeat match goal with H : negb _ = true |- _ => apply negb_true_iff in H end. assumption. }
+        rewrite (att_lt_sw _ _ Hcs), (att_lt_inert a Ha), (att_lt_inert b Hb).
+        assert (Ht' : existsb att_lt [tgt] = false) by (apply att_lt_inert; cbn [forallb]; now rewrite Ht).
+        cbn [existsb] in Ht'. rewrite orb_false_r in Ht'. rewrite Ht'.
+        destruct Hop as [-> | ->]; reflexivity. }
+    unfold from_tokens_core.
     assert (Hhf : has_from ((TNone, cmd) :: a ++ (TNone, op) :: tgt :: b) = true).
     { unfold has_from. change ((TNone, cmd) :: a ++ (TNone, op) :: tgt :: b) with (((TNone, cmd) :: a) ++ (TNone, op) :: tgt :: b).
       rewrite existsb_app. cbn [existsb fst snd tag_eqb andb]. destruct Hop as [-> | ->]; cbn; now rewrite ?orb_true_r. }
